@@ -593,8 +593,11 @@ pub fn collision_alphabet(nm: &Names) -> Vec<F> {
         "!{x} in %d%: (@{x}: ((@{x}: %p%) & (@{x}: %p%)))",
         "(!{x} in %e%: a) & ((!{x}: AX ({x} & %p%)) & (!{x}: AX ({x} & %p%)))",
         "!{x}: AG EF {x}",
-        "(~ a) & (!{x} in %d%: (~ a))",
+        "!{x} in %d%: ((!{y}: AG EF {y}) & {x})",
         // --- thorough only below ---
+        "(~ a) & (!{x} in %d%: (~ a))",
+        "!{x}: EX ({x} & (!{z}: EX {z}))",
+        "3{w}: 3{x}: ((@{w}: a) & ({x} & EX ({x} & (!{z}: EX {z}))))",
         "!{y}: EX (AX ({y} & a))",
         "%p% & EF (~ a)",
         "V{x} in %d%: @{x}: EF (~ a)",
@@ -602,7 +605,6 @@ pub fn collision_alphabet(nm: &Names) -> Vec<F> {
         "!{x}: (!{y}: AX {y}) & AX {x}",
         "3{x}: !{y} in %d%: (!{z}: AX ({z} & a))",
         "!{x}: (!{y}: AX ({y} & a))",
-        "!{x} in %d%: ((!{y}: AG EF {y}) & {x})",
         "!{x} in %d%: !{y} in %e%: (AX ({x} & a) | AX ({y} & a))",
         "EF (~ a) | (3{x} in %e%: EF (~ a))",
         "!{x}: !{y}: (AX ({x} & a) & AX ({y} & a))",
@@ -725,4 +727,69 @@ pub fn templates(nm: &Names, ext: bool, pool_size: usize) -> Vec<F> {
         }
     }
     fs
+}
+
+/// Shift the levels of all variables/binders with level >= `from` by `by`.
+pub fn shift_levels(f: &F, from: u8, by: u8) -> F {
+    let s = |v: u8| if v >= from { v + by } else { v };
+    match f {
+        F::Var(i) => F::Var(s(*i)),
+        F::Un(o, c) => F::un(*o, shift_levels(c, from, by)),
+        F::Bin(o, l, r) => F::bin(*o, shift_levels(l, from, by), shift_levels(r, from, by)),
+        F::Hy(o, v, d, c) => F::hy(*o, s(*v), *d, shift_levels(c, from, by)),
+        other => other.clone(),
+    }
+}
+
+/// Duplicate templates (DESIGN §2.4): a sub-formula phi with exactly one free variable (and
+/// possibly quantifiers of its own) occurring twice up to renaming — at the same and at
+/// *different* quantifier depths, in both evaluation orders, with the free variable being the
+/// outer or the inner one. `max_phi` bounds the size of phi; `need_inner_q` keeps only phi that
+/// contain a quantifier (the shapes where canonical renaming involves more than one variable).
+pub fn duplicate_templates(nprops: u8, max_phi: usize, need_inner_q: bool, ext: bool) -> Vec<F> {
+    let mut alpha = Alphabet::plain(nprops.min(1), 3);
+    alpha.consts = vec![];
+    alpha.un = vec![Un::EX, Un::AX, Un::Not];
+    alpha.bi = vec![Bi::And];
+    alpha.quant = vec![Hy::Bind, Hy::Exists];
+    if ext {
+        alpha.nwilds = 1;
+    }
+    let mut g = Gen::new(alpha);
+    let mut pool: Vec<F> = vec![];
+    for size in 2..=max_phi {
+        for phi in g.exact(size, 1).iter() {
+            let uses_free = phi.any(|x| matches!(x, F::Var(0)) || matches!(x, F::Hy(Hy::Jump, 0, _, _)));
+            let has_q = phi.any(|x| matches!(x, F::Hy(h, _, _, _) if *h != Hy::Jump));
+            if uses_free && (has_q || !need_inner_q) && phi.qdepth() <= 1 {
+                pool.push(phi.clone());
+            }
+        }
+    }
+    let mut out = vec![];
+    let qs = [Hy::Bind, Hy::Exists, Hy::Forall];
+    for phi in &pool {
+        // phi with its free variable at level 0 (inner binders from level 1)
+        let p0 = phi.clone();
+        // free variable at level 1, inner binders from level 2 (placed under two quantifiers, refers to the inner one)
+        let p1 = shift_levels(phi, 0, 1);
+        // free variable at level 0 but placed under two quantifiers (inner binders from level 2)
+        let p0_deep = shift_levels(phi, 1, 1);
+        for (qi, q1) in qs.iter().enumerate() {
+            let q2 = qs[(qi + 1) % 3];
+            for op in [Bi::And, Bi::Or] {
+                // shallow occurrence first, deeper occurrence second, and the other way round
+                out.push(F::hy(*q1, 0, None, F::bin(op, p0.clone(), F::hy(q2, 1, None, p1.clone()))));
+                out.push(F::hy(*q1, 0, None, F::bin(op, F::hy(q2, 1, None, p1.clone()), p0.clone())));
+                // both under two quantifiers: one refers to the outer, one to the inner variable
+                out.push(F::hy(*q1, 0, None, F::hy(q2, 1, None, F::bin(op, p0_deep.clone(), p1.clone()))));
+                // siblings at different depths
+                out.push(F::bin(op, F::hy(*q1, 0, None, p0.clone()), F::hy(q2, 0, None, F::hy(*q1, 1, None, p1.clone()))));
+                out.push(F::bin(op, F::hy(q2, 0, None, F::hy(*q1, 1, None, p1.clone())), F::hy(*q1, 0, None, p0.clone())));
+            }
+        }
+    }
+    out.sort();
+    out.dedup();
+    out
 }
